@@ -315,16 +315,22 @@ Qed.
 (* ---- the part common to the full and the weak invariant ---- *)
 Section Generic.
 Variable P : list group -> list (id * N) -> Prop.
+(* a side condition on the groups handed to AddGroup that P may rely on (trivial for Inv and InvW) *)
+Variable okg : group -> Prop.
+Hypothesis okg_height : forall g h, okg g -> okg (set_height g h).
 Hypothesis P_save : forall l g q,
-  ~ In (gid g) (map gid l) -> P l q -> P (g :: l) (sq_replace (gid g) (gheight g) q).
+  okg g -> ~ In (gid g) (map gid l) -> P l q -> P (g :: l) (sq_replace (gid g) (gheight g) q).
+
+Definition op_ok (o : op) : Prop :=
+  match o with Add g => okg g | ForkSwitch _ gs => Forall okg gs | _ => True end.
 Hypothesis P_remove : forall g l q,
   NoDup (map gid (g :: l)) -> P (g :: l) q -> P l (sq_del (gid g) q).
 
 Lemma inv_save s g :
-  InvP P g0 s -> gid g <> null_id -> groups (st s) (gid g) = None -> gpre g = gid (last s) ->
+  InvP P g0 s -> gid g <> null_id -> okg g -> groups (st s) (gid g) = None -> gpre g = gid (last s) ->
   InvP P g0 (save s g).
 Proof.
-  intros (l & Hc & Hhd & Hn & Hgc & Hcur & Hg & Hi & Hsq) Hnn Hnone Hpre.
+  intros (l & Hc & Hhd & Hn & Hgc & Hcur & Hg & Hi & Hsq) Hnn Hok Hnone Hpre.
   destruct l as [|p r]; [destruct Hc|]. cbn [hd_error] in Hhd. injection Hhd as Hp.
   rewrite Hg in Hnone. apply lookup_none in Hnone.
   exists (set_height g (count s) :: p :: r).
@@ -339,12 +345,12 @@ Proof.
   - intros x. unfold upd. rewrite lookup_cons. cbn [set_height gid]. rewrite Hg. reflexivity.
   - intros h. unfold upd. rewrite lookup_h_cons. cbn [set_height gheight].
     rewrite Hi. destruct (h =? count s); reflexivity.
-  - apply (P_save (p :: r) (set_height g (count s))); assumption.
+  - apply (P_save (p :: r) (set_height g (count s))); try assumption. apply okg_height. exact Hok.
 Qed.
 
-Lemma inv_add s g : InvP P g0 s -> gid g <> null_id -> InvP P g0 (fst (add_group s g)).
+Lemma inv_add s g : InvP P g0 s -> gid g <> null_id -> okg g -> InvP P g0 (fst (add_group s g)).
 Proof.
-  intros HI Hnn. unfold add_group, has.
+  intros HI Hnn Hok. unfold add_group, has.
   destruct (groups (st s) (gid g)) eqn:E1; [exact HI|].
   destruct (groups (st s) (gparent g)) eqn:E2; cbn [negb]; [|exact HI].
   destruct (N.eqb_spec (gid (last s)) (gpre g)) as [E3|E3]; cbn [negb fst]; [|exact HI].
@@ -422,26 +428,26 @@ Qed.
 
 (* triggerOnChain: the additions stop at the first refusal *)
 Lemma inv_add_all gs : forall s,
-  InvP P g0 s -> Forall (fun g => gid g <> null_id) gs -> InvP P g0 (fst (add_all s gs)).
+  InvP P g0 s -> Forall (fun g => gid g <> null_id) gs -> Forall okg gs -> InvP P g0 (fst (add_all s gs)).
 Proof.
-  induction gs as [|g r IH]; intros s HI Hwf; [exact HI|].
-  inversion Hwf as [|? ? Hg Hr]; subst. cbn [add_all].
-  pose proof (inv_add s g HI Hg) as HI'.
+  induction gs as [|g r IH]; intros s HI Hwf Hok; [exact HI|].
+  inversion Hwf as [|? ? Hg Hr]; subst. inversion Hok as [|? ? Hokg Hokr]; subst. cbn [add_all].
+  pose proof (inv_add s g HI Hg Hokg) as HI'.
   destruct (add_group s g) as [s' c]. cbn [fst] in HI'.
   destruct (c =? 0); [apply IH; assumption|exact HI'].
 Qed.
 
 Lemma inv_trigger s anc gs :
-  InvP P g0 s -> Forall (fun g => gid g <> null_id) gs ->
+  InvP P g0 s -> Forall (fun g => gid g <> null_id) gs -> Forall okg gs ->
   InvP P g0 (fst (trigger_on_chain true s anc gs)).
-Proof. intros HI Hwf. apply inv_add_all; [apply inv_remove_from; exact HI|exact Hwf]. Qed.
+Proof. intros HI Hwf Hok. apply inv_add_all; [apply inv_remove_from; exact HI|exact Hwf|exact Hok]. Qed.
 
 (* every operation of the node except a restart *)
 Lemma invp_step_core s o :
-  InvP P g0 s -> op_wf o -> no_loss o -> o <> Restart ->
+  InvP P g0 s -> op_wf o -> op_ok o -> no_loss o -> o <> Restart ->
   InvP P g0 (fst (step true g0 s o)) /\ snd (step true g0 s o) < 98.
 Proof.
-  intros HI Hwf Hnl Hnr. destruct o as [g| |h| |h gs|ids]; cbn [step].
+  intros HI Hwf Hok Hnl Hnr. destruct o as [g| |h| |h gs|ids]; cbn [step].
   - split; [apply inv_add; assumption|].
     unfold add_group. destruct (has s (gid g)); [cbn; lia|].
     destruct (negb (has s (gparent g))); [cbn; lia|].
@@ -454,12 +460,15 @@ Proof.
     + split; [exact HI|lia].
   - congruence.
   - destruct (get_by_height s h) as [anc|]; cbn [fst snd]; [|split; [exact HI|lia]].
-    pose proof (inv_trigger s anc gs HI Hwf) as HI'.
+    pose proof (inv_trigger s anc gs HI Hwf Hok) as HI'.
     destruct (trigger_on_chain true s anc gs) as [s' b]. cbn [fst snd] in *.
     split; [exact HI'|]. destruct b; lia.
   - destruct Hnl.
 Qed.
 End Generic.
+
+Lemma op_ok_true o : op_ok (fun _ => True) o.
+Proof. destruct o; cbn; auto. induction gs; constructor; auto. Qed.
 
 (* ---- restart ---- *)
 (* a restart on a store satisfying the full invariant gives back exactly the state before it *)
@@ -567,9 +576,11 @@ Lemma inv_step s o :
 Proof.
   intros HI Hwf Hnl. destruct (op_eq_restart o) as [->|Hne].
   - cbn [step]. rewrite (restart_identity s HI). cbn [fst snd]. split; [exact HI|lia].
-  - apply (invp_step_core SqOk); try assumption.
-    + intros l g q. apply sqok_save.
+  - apply (invp_step_core SqOk (fun _ => True)); try assumption.
+    + intros; exact I.
+    + intros l g q _. apply sqok_save.
     + intros g l q. apply sqok_remove.
+    + apply op_ok_true.
 Qed.
 
 Lemma invw_step s o :
@@ -580,8 +591,9 @@ Proof.
   - cbn [step]. destruct (restart_heals s HI) as (q & -> & HI'). cbn [fst snd].
     split; [apply inv_invw; exact HI'|lia].
   - destruct o as [g| |h| |h gs|ids];
-      try (apply (invp_step_core SqSub); try assumption; try exact I;
-           [intros l g' q _; apply sqsub_save|intros g' l q _; apply sqsub_remove]).
+      try (apply (invp_step_core SqSub (fun _ => True)); try assumption; try exact I;
+           try apply op_ok_true;
+           [intros; exact I|intros l g' q _ _; apply sqsub_save|intros g' l q _; apply sqsub_remove]).
     cbn [step fst snd]. split; [|lia].
     destruct HI as (l & H1 & H2 & H3 & H4 & H5 & H6 & H7 & H8).
     exists l. unfold set_sq. cbn [st count last groups idx gcur gcnt sq].
